@@ -125,6 +125,7 @@ func (con *Connection) nextFrame() []byte {
 // The written bytes are encrypted when possible.
 func (con *Connection) Write(b []byte) (n int, err error) {
 	verifYield("write", con, b)
+	verifBeforeLock(&con.writeMutex)
 	con.writeMutex.Lock()
 	defer con.writeMutex.Unlock()
 
